@@ -1,7 +1,549 @@
 (** Proofs about the coalescing queue model and its transition system. *)
+From Coq Require Import Sorting.Sorted.
 From Gnmi Require Import Base.Prelude Base.Lts Coalesce.QueueModel Coalesce.QueueLts.
 Open Scope N_scope.
+Local Arguments N.add : simpl never.
 
+(** * The [coalesced] map against the abstract queue *)
+
+Lemma aq_mem_cget i m : aq_mem i m = true <-> cget i m <> None.
+Proof.
+  induction m as [|[k c] m IH]; cbn.
+  - split; [discriminate|congruence].
+  - destruct (N.eqb i k); cbn; [split; [discriminate|reflexivity]|exact IH].
+Qed.
+
+Lemma aq_mem_false_cget i m : aq_mem i m = false <-> cget i m = None.
+Proof.
+  induction m as [|[k c] m IH]; cbn.
+  - split; reflexivity.
+  - destruct (N.eqb i k); cbn; [split; discriminate|exact IH].
+Qed.
+
+Lemma aq_mem_In i m : aq_mem i m = true <-> In i (map fst m).
+Proof.
+  induction m as [|[k c] m IH]; cbn.
+  - split; [discriminate|tauto].
+  - rewrite orb_true_iff, IH, N.eqb_eq. split; intros [H|H]; auto.
+Qed.
+
+Lemma cset_bump i c m : cget i m = Some c -> cset i (c + 1) m = aq_bump i m.
+Proof.
+  induction m as [|[k c'] m IH]; cbn; [discriminate|].
+  destruct (N.eqb i k); intros H.
+  - inversion H; subst; reflexivity.
+  - rewrite IH; auto.
+Qed.
+
+Lemma cset_append i v m : cget i m = None -> cset i v m = m ++ [(i, v)].
+Proof.
+  induction m as [|[k c'] m IH]; cbn; [reflexivity|].
+  destruct (N.eqb i k); [discriminate|]. intros H. rewrite IH; auto.
+Qed.
+
+Lemma keys_bump i m : map fst (aq_bump i m) = map fst m.
+Proof.
+  induction m as [|[k c] m IH]; cbn; [reflexivity|].
+  destruct (N.eqb i k); cbn; [reflexivity|]. now rewrite IH.
+Qed.
+
+(** * Well-formedness: the map's keys are the queue, without repetition.
+    (Go's map has no order; the association list of the model happens to be
+    kept in queue order, which makes the abstraction the list itself.) *)
+
+Definition qwf (s : qstate) : Prop :=
+  map fst (q_counts s) = q_queue s /\ NoDup (q_queue s).
+
+Lemma qwf_init : qwf q_init.
+Proof. split; [reflexivity|constructor]. Qed.
+
+Lemma q_abs_counts s : qwf s -> q_abs s = q_counts s.
+Proof.
+  destruct s as [qu m t c]. unfold qwf, q_abs; cbn. intros [Hk Hn]. subst qu.
+  induction m as [|[k v] m IH]; cbn; [reflexivity|].
+  rewrite N.eqb_refl. f_equal.
+  inversion Hn as [|? ? Hni Hn']; subst.
+  rewrite <- IH at 2 by assumption.
+  apply map_ext_in. intros a Ha.
+  destruct (N.eqb_spec a k) as [->|]; [contradiction|reflexivity].
+Qed.
+
+Lemma locked_insert_spec s i :
+  qwf s ->
+  let r := locked_insert s i in
+  qwf (fst r) /\
+  q_counts (fst r) = fst (aq_insert i (q_counts s)) /\
+  snd r = snd (aq_insert i (q_counts s)) /\
+  q_token (fst r) = q_token s /\ q_closed (fst r) = q_closed s.
+Proof.
+  destruct s as [qu m t c]. unfold qwf, locked_insert, aq_insert; cbn. intros [Hk Hn]. subst qu.
+  destruct (cget i m) as [v|] eqn:E; cbn.
+  - assert (Hm : aq_mem i m = true) by (apply aq_mem_cget; congruence).
+    rewrite Hm; cbn. rewrite (cset_bump _ _ _ E), keys_bump. auto.
+  - assert (Hm : aq_mem i m = false) by (apply aq_mem_false_cget; assumption).
+    rewrite Hm; cbn. rewrite (cset_append _ _ _ E), map_app; cbn.
+    repeat split; auto.
+    apply NoDup_app_intro_single; auto.
+    intros Hin. apply aq_mem_In in Hin. congruence.
+Qed.
+
+Lemma locked_next_spec s :
+  qwf s ->
+  match locked_next s with
+  | None => q_counts s = [] /\ q_queue s = []
+  | Some (i, d, s') =>
+      qwf s' /\ q_counts s = (i, d) :: q_counts s' /\
+      q_token s' = q_token s /\ q_closed s' = q_closed s
+  end.
+Proof.
+  destruct s as [qu m t c]. unfold qwf, locked_next; cbn. intros [Hk Hn]. subst qu.
+  destruct m as [|[k v] m]; cbn; [auto|].
+  rewrite N.eqb_refl.
+  inversion Hn; subst.
+  destruct m as [|kv m]; cbn; repeat split; auto; constructor.
+Qed.
+
+(** * The abstract queue against the history: order of first pending
+    insertion, exact duplicate counts *)
+
+Record hist_ok (h : list lev) (q : aq) : Prop := {
+  ho_nodup : NoDup (map fst q);
+  ho_mem : forall i, In i (map fst q) <-> fpos i h <> None;
+  ho_cnt : forall i d, In (i, d) q -> npend i h = 1 + d;
+  ho_zero : forall i, ~ In i (map fst q) -> npend i h = 0;
+  ho_bound : forall i k, fpos i h = Some k -> (k < List.length h)%nat;
+  ho_sorted : StronglySorted lt (map (pos h) (map fst q)) }.
+
+Lemma StronglySorted_snoc (l : list nat) (a : nat) :
+  StronglySorted lt l -> Forall (fun x => (x < a)%nat) l -> StronglySorted lt (l ++ [a]).
+Proof.
+  induction l as [|x l IH]; cbn; intros Hs Hf.
+  - constructor; constructor.
+  - inversion Hs; subst. inversion Hf; subst. constructor; auto.
+    apply Forall_app; split; auto.
+Qed.
+
+Lemma In_bump i d j m :
+  In (i, d) (aq_bump j m) -> NoDup (map fst m) ->
+  (i <> j /\ In (i, d) m) \/ (i = j /\ exists d', d = d' + 1 /\ In (i, d') m).
+Proof.
+  induction m as [|[k c] m IH]; cbn; [tauto|].
+  intros H Hn. inversion Hn as [|? ? Hni Hn']; subst.
+  destruct (N.eqb_spec j k) as [->|Hne].
+  - destruct H as [H|H].
+    + inversion H; subst. right. split; auto. exists c. auto.
+    + left. split; auto. intros ->. apply Hni. apply (in_map fst) in H. exact H.
+  - destruct H as [H|H].
+    + inversion H; subst. left. split; auto.
+    + destruct (IH H Hn') as [[? ?]|[? (d' & ? & ?)]]; [left|right]; eauto.
+Qed.
+
+Lemma aq_replay_hist_ok h : forall q, aq_replay h = Some q -> hist_ok h q.
+Proof.
+  induction h as [|e h IH]; cbn; intros q Hq.
+  - inversion Hq; subst.
+    split; cbn; [constructor|intros i; split; [tauto|congruence]|tauto|reflexivity|discriminate|constructor].
+  - destruct e as [j new|j d].
+    + destruct (aq_replay h) as [q0|] eqn:E; [|discriminate].
+      specialize (IH q0 eq_refl). destruct IH as [Hnd Hmem Hcnt Hz Hb Hs].
+      destruct (Bool.eqb new (snd (aq_insert j q0))); [|discriminate].
+      inversion Hq; subst q; clear Hq.
+      unfold aq_insert. destruct (aq_mem j q0) eqn:Em; cbn.
+      * (* coalesced *)
+        assert (Hj : In j (map fst q0)) by (apply aq_mem_In; assumption).
+        assert (Hfj : fpos j h <> None) by (apply Hmem; assumption).
+        assert (Hkeep : forall i, In i (map fst q0) -> fpos i (LIns j new :: h) = fpos i h).
+        { intros i Hi. cbn. apply Hmem in Hi. destruct (fpos i h); congruence. }
+        split.
+        -- rewrite keys_bump. assumption.
+        -- intros i. rewrite keys_bump. cbn. rewrite Hmem.
+           destruct (fpos i h) eqn:Ei; [split; congruence|].
+           destruct (N.eqb_spec i j) as [->|]; [congruence|tauto].
+        -- intros i d Hin. cbn.
+           destruct (In_bump _ _ _ _ Hin Hnd) as [[Hne Hi]|[-> (d' & -> & Hi)]].
+           ++ apply N.eqb_neq in Hne. rewrite Hne. rewrite (Hcnt _ _ Hi). lia.
+           ++ rewrite N.eqb_refl. rewrite (Hcnt _ _ Hi). lia.
+        -- intros i. rewrite keys_bump. intros Hni. cbn.
+           destruct (N.eqb_spec i j) as [->|]; [contradiction|]. rewrite (Hz _ Hni). lia.
+        -- intros i k. cbn. destruct (fpos i h) eqn:Ei.
+           ++ intros H; inversion H; subst. apply Hb in Ei. lia.
+           ++ destruct (N.eqb i j); [|discriminate]. intros H; inversion H; subst. lia.
+        -- rewrite keys_bump.
+           rewrite (map_ext_in (pos (LIns j new :: h)) (pos h)); [assumption|].
+           intros i Hi. unfold pos. rewrite (Hkeep _ Hi). reflexivity.
+      * (* a new item goes last *)
+        assert (Hj : ~ In j (map fst q0)) by (rewrite <- aq_mem_In; congruence).
+        assert (Hfj : fpos j h = None).
+        { destruct (fpos j h) eqn:Ej; [|reflexivity]. exfalso. apply Hj, Hmem. congruence. }
+        assert (Hkeep : forall i, In i (map fst q0) -> fpos i (LIns j new :: h) = fpos i h).
+        { intros i Hi. cbn. apply Hmem in Hi. destruct (fpos i h); congruence. }
+        split.
+        -- rewrite map_app; cbn. apply NoDup_app_intro_single; assumption.
+        -- intros i. rewrite map_app, in_app_iff; cbn. rewrite Hmem.
+           destruct (fpos i h) eqn:Ei.
+           ++ split; [congruence|]. intros _. left. congruence.
+           ++ destruct (N.eqb_spec i j) as [->|].
+              ** split; [congruence|]. intros _. right. auto.
+              ** split; [|congruence]. intros [H|[H|[]]]; congruence.
+        -- intros i d. rewrite in_app_iff; cbn. intros [Hi|[Hi|[]]].
+           ++ assert (i <> j). { intros ->. apply Hj. apply (in_map fst) in Hi. exact Hi. }
+              destruct (N.eqb_spec i j); [contradiction|]. rewrite (Hcnt _ _ Hi). lia.
+           ++ inversion Hi; subst. rewrite N.eqb_refl. rewrite (Hz _ Hj). lia.
+        -- intros i. rewrite map_app, in_app_iff; cbn. intros Hni.
+           destruct (N.eqb_spec i j) as [->|]; [tauto|]. rewrite Hz; [lia|tauto].
+        -- intros i k. cbn. destruct (fpos i h) eqn:Ei.
+           ++ intros H; inversion H; subst. apply Hb in Ei. lia.
+           ++ destruct (N.eqb i j); [|discriminate]. intros H; inversion H; subst. lia.
+        -- rewrite map_app, map_app; cbn. apply StronglySorted_snoc.
+           ++ rewrite (map_ext_in (pos (LIns j new :: h)) (pos h)); [assumption|].
+              intros i Hi. unfold pos. rewrite (Hkeep _ Hi). reflexivity.
+           ++ apply Forall_forall. intros x Hx. apply in_map_iff in Hx.
+              destruct Hx as (i & <- & Hi).
+              unfold pos at 2. cbn. rewrite Hfj, N.eqb_refl.
+              unfold pos. rewrite (Hkeep _ Hi).
+              apply Hmem in Hi. destruct (fpos i h) eqn:Ei; [|congruence].
+              apply Hb in Ei. exact Ei.
+    + destruct (aq_replay h) as [[|[j' c] q0]|] eqn:E; try discriminate.
+      specialize (IH _ eq_refl). destruct IH as [Hnd Hmem Hcnt Hz Hb Hs].
+      destruct (N.eqb_spec j j') as [<-|]; cbn in Hq; [|discriminate].
+      destruct (N.eqb_spec d c) as [<-|]; cbn in Hq; [|discriminate].
+      inversion Hq; subst q; clear Hq.
+      cbn in Hnd. inversion Hnd as [|? ? Hnj Hnd']; subst.
+      split.
+      * assumption.
+      * intros i. cbn. destruct (N.eqb_spec i j) as [->|Hne].
+        -- split; [contradiction|congruence].
+        -- rewrite <- Hmem. cbn. split; [auto|]. intros [H|H]; [congruence|assumption].
+      * intros i d' Hi. cbn.
+        assert (i <> j). { intros ->. apply Hnj. apply (in_map fst) in Hi. exact Hi. }
+        destruct (N.eqb_spec i j); [contradiction|]. apply Hcnt. right. assumption.
+      * intros i Hni. cbn. destruct (N.eqb_spec i j) as [->|Hne]; [reflexivity|].
+        apply Hz. cbn. intros [H|H]; [congruence|contradiction].
+      * intros i k. cbn. destruct (N.eqb i j); [discriminate|]. intros H. apply Hb in H. lia.
+      * cbn in Hs. inversion Hs as [|? ? Hs' _]; subst.
+        rewrite (map_ext_in (pos (LPop j d :: h)) (pos h)); [assumption|].
+        intros i Hi. unfold pos. cbn.
+        destruct (N.eqb_spec i j) as [->|]; [contradiction|reflexivity].
+Qed.
+
+(** conservation on the abstract level *)
+Lemma weight_app a b : weight (a ++ b) = weight a + weight b.
+Proof. induction a as [|[i d] a IH]; cbn; [reflexivity|]. rewrite IH. lia. Qed.
+
+Lemma weight_bump i q : aq_mem i q = true -> weight (aq_bump i q) = 1 + weight q.
+Proof.
+  induction q as [|[k c] q IH]; cbn; [discriminate|].
+  destruct (N.eqb i k); cbn; intros H; [lia|]. rewrite IH by assumption. lia.
+Qed.
+
+Lemma aq_replay_conservation h : forall q,
+  aq_replay h = Some q -> weight (delivered h) + weight q = count_ins h.
+Proof.
+  induction h as [|e h IH]; cbn; intros q Hq.
+  - inversion Hq; reflexivity.
+  - destruct e as [j new|j d].
+    + destruct (aq_replay h) as [q0|]; [|discriminate].
+      destruct (Bool.eqb new (snd (aq_insert j q0))); [|discriminate].
+      inversion Hq; subst q. specialize (IH q0 eq_refl).
+      unfold aq_insert. destruct (aq_mem j q0) eqn:Em; cbn.
+      * rewrite weight_bump by assumption. lia.
+      * rewrite weight_app. cbn. lia.
+    + destruct (aq_replay h) as [[|[j' c] q0]|]; try discriminate.
+      destruct (N.eqb_spec j j') as [<-|]; cbn in Hq; [|discriminate].
+      destruct (N.eqb_spec d c) as [<-|]; cbn in Hq; [|discriminate].
+      inversion Hq; subst q. specialize (IH _ eq_refl). cbn in IH |- *. lia.
+Qed.
+
+(** * Invariants of the transition system, over all schedules *)
+
+Record linv (s : lstate) : Prop := {
+  li_wf : qwf (l_q s);
+  li_ref : aq_replay (lin (l_hist s)) = Some (q_counts (l_q s));
+  li_wake : l_cp s = CWait -> q_queue (l_q s) <> [] ->
+            q_token (l_q s) = true \/ exists n i, l_pp s n = PInserted i true;
+  li_len : l_cp s = CLen -> q_closed (l_q s) = true;
+  li_closed : q_closed (l_q s) = true <-> In EClose (l_hist s);
+  li_cancel : l_cancelled s = true <-> In ECancel (l_hist s) }.
+
+Lemma linv_init : linv l_init.
+Proof.
+  split; cbn; try discriminate; try (split; [discriminate|tauto]).
+  - apply qwf_init.
+  - reflexivity.
+Qed.
+
+Lemma set_pp_same f n p : set_pp f n p n = p.
+Proof. unfold set_pp. now rewrite Nat.eqb_refl. Qed.
+
+Lemma set_pp_other f n p m : m <> n -> set_pp f n p m = f m.
+Proof. unfold set_pp. intros H. apply Nat.eqb_neq in H. now rewrite H. Qed.
+
+Lemma keys_aq_insert_nonempty i q : map fst (fst (aq_insert i q)) <> [] .
+Proof.
+  unfold aq_insert. destruct (aq_mem i q) eqn:E; cbn.
+  - rewrite keys_bump. destruct q; [discriminate|cbn; congruence].
+  - rewrite map_app; cbn. destruct (map fst q); cbn; congruence.
+Qed.
+
+Lemma iff_in_cons (P : Prop) (x e : ev) h : e <> x -> (P <-> In x h) -> (P <-> In x (e :: h)).
+Proof. intros Hne [H1 H2]. split; [right; auto|intros [H|H]; [contradiction|auto]]. Qed.
+
+Ltac hist_iff H := cbn -[In]; repeat (apply iff_in_cons; [discriminate|]); exact H.
+Ltac dinv H := destruct H as [Hwf Href Hwake Hlen Hcl Hca].
+
+Lemma q_close_fields q :
+  q_queue (q_close q) = q_queue q /\ q_counts (q_close q) = q_counts q
+  /\ q_token (q_close q) = q_token q /\ q_closed (q_close q) = true.
+Proof. unfold q_close. destruct (q_closed q) eqn:E; cbn; auto. Qed.
+
+Lemma linv_cons_next s h :
+  linv s -> lin h = lin (l_hist s) ->
+  (In EClose h <-> In EClose (l_hist s)) -> (In ECancel h <-> In ECancel (l_hist s)) ->
+  linv (cons_next s h).
+Proof.
+  intros Hinv Hlin Hic Hia. dinv Hinv.
+  pose proof (locked_next_spec (l_q s) Hwf) as Hn.
+  unfold cons_next.
+  destruct (locked_next (l_q s)) as [[[i d] q']|] eqn:En.
+  - destruct Hn as (Hwf' & Hc' & Ht & Hcz). split; cbn -[In]; auto; try discriminate.
+    + rewrite Hlin, Href, Hc', !N.eqb_refl. reflexivity.
+    + rewrite Hcz. repeat (apply iff_in_cons; [discriminate|]). rewrite Hic. exact Hcl.
+    + repeat (apply iff_in_cons; [discriminate|]). rewrite Hia. exact Hca.
+  - destruct Hn as (Hc0 & Hq0). split; cbn -[In]; auto; try discriminate.
+    + rewrite Hlin. exact Href.
+    + rewrite Hic. exact Hcl.
+    + rewrite Hia. exact Hca.
+Qed.
+
+Lemma linv_step s l s' : linv s -> lstep s l = Some s' -> linv s'.
+Proof.
+  intros Hinv Hs.
+  destruct l as [n i|n| |b| |]; cbn in Hs.
+  - (* LCall *)
+    destruct (l_pp s n) eqn:Ep; try discriminate.
+    destruct (q_closed (l_q s)) eqn:Ec; inversion Hs; subst; clear Hs; dinv Hinv; split; cbn -[In]; auto.
+    + hist_iff Hcl.
+    + hist_iff Hca.
+    + intros Hw Hq. destruct (Hwake Hw Hq) as [H|(n0 & i0 & H)]; [auto|].
+      right. exists n0, i0. rewrite set_pp_other; [assumption|]. intros ->. congruence.
+    + hist_iff Hcl.
+    + hist_iff Hca.
+  - (* LP *)
+    destruct (l_pp s n) as [|i|i ok] eqn:Ep; try discriminate.
+    + (* locked insert *)
+      pose proof (locked_insert_spec (l_q s) i (li_wf _ Hinv)) as Hli. cbn zeta in Hli.
+      destruct (locked_insert (l_q s) i) as [q' ok] eqn:El. cbn in Hli.
+      destruct Hli as (Hwf' & Hc' & Hok & Ht & Hcz).
+      inversion Hs; subst s'; clear Hs. dinv Hinv. split; cbn -[In]; auto.
+      * rewrite Href, Hc', Hok, Bool.eqb_reflx. reflexivity.
+      * intros Hw Hq. destruct ok.
+        -- right. exists n, i. apply set_pp_same.
+        -- assert (Hq0 : q_queue (l_q s) <> []).
+           { destruct Hwf as [Hk _]. destruct Hwf' as [Hk' _].
+             rewrite <- Hk. rewrite <- Hk', Hc' in Hq.
+             unfold aq_insert in Hq, Hok. destruct (aq_mem i (q_counts (l_q s))); cbn in Hok; [|discriminate].
+             cbn in Hq. rewrite keys_bump in Hq. exact Hq. }
+           rewrite Ht. destruct (Hwake Hw Hq0) as [H|(n0 & i0 & H)]; [auto|].
+           right. exists n0, i0. rewrite set_pp_other; [assumption|]. intros ->. congruence.
+      * rewrite Hcz. exact Hlen.
+      * rewrite Hcz. hist_iff Hcl.
+      * hist_iff Hca.
+    + (* token, return *)
+      inversion Hs; subst s'; clear Hs. dinv Hinv.
+      split; cbn -[In].
+      * destruct ok; [|assumption]. exact Hwf.
+      * destruct ok; exact Href.
+      * intros Hw Hne. destruct ok; cbn; [left; reflexivity|].
+        destruct (Hwake Hw Hne) as [H|(n0 & i0 & H)]; [auto|].
+        right. exists n0, i0. rewrite set_pp_other; [assumption|]. intros ->.
+        rewrite Ep in H. inversion H.
+      * destruct ok; exact Hlen.
+      * destruct ok; hist_iff Hcl.
+      * hist_iff Hca.
+  - (* LC *)
+    destruct (l_cp s) eqn:Ec; try discriminate.
+    + inversion Hs; subst s'. apply linv_cons_next; cbn; auto.
+      * split; [intros [H|H]; [discriminate|auto]|auto].
+      * split; [intros [H|H]; [discriminate|auto]|auto].
+    + inversion Hs; subst s'. apply linv_cons_next; cbn; auto; tauto.
+    + destruct (Nat.eqb (q_len (l_q s)) 0); inversion Hs; subst s'; dinv Hinv; split; cbn -[In]; auto; try discriminate.
+      * hist_iff Hcl.
+      * hist_iff Hca.
+  - (* LSel *)
+    destruct (l_cp s) eqn:Ec; try discriminate.
+    destruct b.
+    + destruct (l_cancelled s) eqn:Ea; inversion Hs; subst s'; dinv Hinv; split; cbn -[In]; auto; try discriminate.
+      * hist_iff Hcl.
+      * apply iff_in_cons; [discriminate|]. split; [intros _; apply Hca, Ea|reflexivity].
+    + destruct (q_token (l_q s)) eqn:Et; inversion Hs; subst s'; dinv Hinv; split; cbn -[In]; auto; try discriminate.
+    + destruct (q_closed (l_q s)) eqn:Et; inversion Hs; subst s'; dinv Hinv; split; cbn -[In]; auto; try discriminate.
+  - (* LClose *)
+    inversion Hs; subst s'; clear Hs. dinv Hinv.
+    destruct (q_close_fields (l_q s)) as (Hq & Hc & Ht & Hz).
+    split; cbn -[In].
+    * unfold qwf. rewrite Hq, Hc. exact Hwf.
+    * rewrite Hc. exact Href.
+    * rewrite Hq, Ht. exact Hwake.
+    * intros _. exact Hz.
+    * rewrite Hz. split; [intros _; left; reflexivity|reflexivity].
+    * hist_iff Hca.
+  - (* LCancel *)
+    inversion Hs; subst s'; clear Hs. dinv Hinv. split; cbn -[In]; auto.
+    * hist_iff Hcl.
+    * split; [intros _; left; reflexivity|reflexivity].
+Qed.
+
+Theorem linv_reachable s : lreach s -> linv s.
+Proof. apply (invariant lstep linv l_init linv_init). intros; eapply linv_step; eauto. Qed.
+
+(** * The clauses of C11 *)
+
+(** Refinement: along every schedule the critical sections, in the order they
+    happened, are a run of the abstract coalescing queue -- every locked insert
+    reports "new" exactly when the abstract queue does not hold the item, every
+    pop returns the abstract queue's head with its count -- and the concrete
+    state abstracts to the abstract queue's state. *)
+Theorem refinement s :
+  lreach s -> aq_replay (lin (l_hist s)) = Some (q_abs (l_q s)).
+Proof.
+  intros Hr. destruct (linv_reachable s Hr) as [Hwf Href _ _ _ _].
+  rewrite (q_abs_counts _ Hwf). exact Href.
+Qed.
+
+(** The queue holds exactly the items with an undelivered insertion, without
+    repetition, in the order of their first undelivered insertion. *)
+Theorem fifo_first_insertion s :
+  lreach s ->
+  let h := lin (l_hist s) in
+  NoDup (q_queue (l_q s)) /\
+  (forall i, In i (q_queue (l_q s)) <-> fpos i h <> None) /\
+  StronglySorted lt (map (pos h) (q_queue (l_q s))).
+Proof.
+  intros Hr h. destruct (linv_reachable s Hr) as [[Hk Hn] Href _ _ _ _].
+  destruct (aq_replay_hist_ok _ _ Href) as [Hnd Hmem _ _ _ Hs].
+  rewrite Hk in *. auto.
+Qed.
+
+(** ... and [Next] delivers the item whose first undelivered insertion is the
+    oldest, with exactly the number of further insertions made since. *)
+Theorem next_delivers_first s i d q' :
+  lreach s -> l_cp s = CIdle \/ l_cp s = CTry ->
+  locked_next (l_q s) = Some (i, d, q') ->
+  let h := lin (l_hist s) in
+  (exists s' pre, lstep s LC = Some s' /\ l_cp s' = CIdle /\ l_q s' = q' /\
+                  l_hist s' = ERetNext (NItem i d) :: EPop i d :: pre /\
+                  lin (l_hist s') = LPop i d :: h) /\
+  fpos i h <> None /\
+  (forall j, fpos j h <> None -> (pos h i <= pos h j)%nat) /\
+  npend i h = 1 + d.
+Proof.
+  intros Hr Hcp Hn h. destruct (linv_reachable s Hr) as [Hwf Href _ _ _ _].
+  pose proof (locked_next_spec (l_q s) Hwf) as Hsp. rewrite Hn in Hsp.
+  destruct Hsp as (_ & Hc & _).
+  destruct (aq_replay_hist_ok _ _ Href) as [Hnd Hmem Hcnt _ _ Hs].
+  rewrite Hc in *. cbn in Hs, Hmem, Hnd.
+  split; [|split; [|split]].
+  - cbn. unfold cons_next. destruct Hcp as [E|E]; rewrite E, Hn; eexists; eexists;
+      (split; [reflexivity|]); cbn; auto.
+  - apply Hmem. left. reflexivity.
+  - intros j Hj. apply Hmem in Hj. destruct Hj as [<-|Hj]; [lia|].
+    inversion Hs as [|? ? _ Hall]; subst.
+    rewrite Forall_forall in Hall.
+    assert (pos h i < pos h j)%nat; [|lia].
+    apply Hall. apply in_map. exact Hj.
+  - apply Hcnt. left. reflexivity.
+Qed.
+
+(** A step of the consumer from outside the select returns an item only by
+    popping it, so the theorem above covers every delivery. *)
+Lemma next_none_waits s :
+  l_cp s = CIdle \/ l_cp s = CTry -> locked_next (l_q s) = None ->
+  exists s', lstep s LC = Some s' /\ l_cp s' = CWait /\ l_q s' = l_q s.
+Proof.
+  intros Hcp Hn. cbn. unfold cons_next. destruct Hcp as [E|E]; rewrite E, Hn; eexists; cbn; auto.
+Qed.
+
+(** Duplicate counts are exact: the counter of a pending item is the number of
+    insertions since its first undelivered one; an item that is not pending has
+    no undelivered insertion. *)
+Theorem dup_exact s :
+  lreach s ->
+  let h := lin (l_hist s) in
+  (forall i c, cget i (q_counts (l_q s)) = Some c -> npend i h = 1 + c) /\
+  (forall i, ~ In i (q_queue (l_q s)) -> npend i h = 0).
+Proof.
+  intros Hr h. destruct (linv_reachable s Hr) as [[Hk Hn] Href _ _ _ _].
+  destruct (aq_replay_hist_ok _ _ Href) as [Hnd _ Hcnt Hz _ _].
+  split.
+  - intros i c Hg. apply Hcnt. clear - Hg.
+    induction (q_counts (l_q s)) as [|[k v] m IH]; cbn in *; [discriminate|].
+    destruct (N.eqb_spec i k) as [->|]; [inversion Hg; auto|auto].
+  - intros i Hi. apply Hz. rewrite Hk. exact Hi.
+Qed.
+
+(** Conservation, in every reachable state of every schedule. *)
+Theorem conservation s :
+  lreach s ->
+  weight (delivered (lin (l_hist s))) + weight (q_abs (l_q s)) = count_ins (lin (l_hist s)).
+Proof. intros Hr. apply aq_replay_conservation, refinement, Hr. Qed.
+
+(** Closing and cancelling are for ever. *)
+Lemma closed_step s l s' : lstep s l = Some s' -> q_closed (l_q s) = true -> q_closed (l_q s') = true.
+Proof.
+  destruct l as [n i|n| |b| |]; cbn; intros Hs Hc.
+  - destruct (l_pp s n); try discriminate. rewrite Hc in Hs. inversion Hs; subst; auto.
+  - destruct (l_pp s n) as [|i|i ok]; try discriminate.
+    + unfold locked_insert in Hs. destruct (cget i (q_counts (l_q s))); inversion Hs; subst; auto.
+    + inversion Hs; subst; cbn. destruct ok; auto.
+  - unfold cons_next, locked_next in Hs.
+    destruct (l_cp s); try discriminate.
+    + destruct (q_queue (l_q s)) as [|x [|y r]]; inversion Hs; subst; auto.
+    + destruct (q_queue (l_q s)) as [|x [|y r]]; inversion Hs; subst; auto.
+    + destruct (Nat.eqb (q_len (l_q s)) 0); inversion Hs; subst; auto.
+  - destruct (l_cp s); try discriminate. destruct b.
+    + destruct (l_cancelled s); inversion Hs; subst; auto.
+    + destruct (q_token (l_q s)); inversion Hs; subst; auto.
+    + rewrite Hc in Hs. inversion Hs; subst; auto.
+  - inversion Hs; subst; cbn. unfold q_close. rewrite Hc. exact Hc.
+  - inversion Hs; subst; auto.
+Qed.
+
+Theorem closed_forever s s' :
+  reachable_from lstep s s' -> q_closed (l_q s) = true -> q_closed (l_q s') = true.
+Proof.
+  intros Hr Hc. apply (invariant lstep (fun x => q_closed (l_q x) = true) s); auto.
+  intros; eapply closed_step; eauto.
+Qed.
+
+Lemma cancelled_step s l s' : lstep s l = Some s' -> l_cancelled s = true -> l_cancelled s' = true.
+Proof.
+  destruct l as [n i|n| |b| |]; cbn; intros Hs Hc.
+  - destruct (l_pp s n); try discriminate. destruct (q_closed (l_q s)); inversion Hs; subst; auto.
+  - destruct (l_pp s n) as [|i|i ok]; try discriminate.
+    + destruct (locked_insert (l_q s) i); inversion Hs; subst; auto.
+    + inversion Hs; subst; auto.
+  - unfold cons_next in Hs.
+    destruct (l_cp s); try discriminate.
+    + destruct (locked_next (l_q s)) as [[[? ?] ?]|]; inversion Hs; subst; auto.
+    + destruct (locked_next (l_q s)) as [[[? ?] ?]|]; inversion Hs; subst; auto.
+    + destruct (Nat.eqb (q_len (l_q s)) 0); inversion Hs; subst; auto.
+  - destruct (l_cp s); try discriminate. destruct b.
+    + rewrite Hc in Hs. inversion Hs; subst; auto.
+    + destruct (q_token (l_q s)); inversion Hs; subst; auto.
+    + destruct (q_closed (l_q s)); inversion Hs; subst; auto.
+  - inversion Hs; subst; auto.
+  - inversion Hs; subst; auto.
+Qed.
+
+Theorem cancelled_forever s s' :
+  reachable_from lstep s s' -> l_cancelled s = true -> l_cancelled s' = true.
+Proof.
+  intros Hr Hc. apply (invariant lstep (fun x => l_cancelled x = true) s); auto.
+  intros; eapply cancelled_step; eauto.
+Qed.
+
+(** Insertions after close are refused: a call whose closed check runs in a
+    closed state changes nothing and returns the closed-queue error. *)
 Lemma insert_after_close_refused s n i s' :
   q_closed (l_q s) = true -> lstep s (LCall n i) = Some s' ->
   l_q s' = l_q s /\ l_pp s' n = PIdle /\
@@ -9,4 +551,309 @@ Lemma insert_after_close_refused s n i s' :
 Proof.
   intros Hc. cbn. destruct (l_pp s n) eqn:E; try discriminate.
   rewrite Hc. intros H; inversion H; subst; cbn. auto.
+Qed.
+
+(** ... and only then: an open queue never refuses. *)
+Lemma insert_open_accepted s n i s' :
+  q_closed (l_q s) = false -> lstep s (LCall n i) = Some s' ->
+  l_pp s' n = PChecked i /\ l_hist s' = ECallIns n i :: l_hist s.
+Proof.
+  intros Hc. cbn. destruct (l_pp s n) eqn:E; try discriminate.
+  rewrite Hc. intros H; inversion H; subst; cbn. rewrite set_pp_same. auto.
+Qed.
+
+(** Once Close has run, every later call is refused, whatever happened since. *)
+Theorem insert_after_close_refused_later s0 s n i s' :
+  q_closed (l_q s0) = true -> reachable_from lstep s0 s -> lstep s (LCall n i) = Some s' ->
+  l_q s' = l_q s /\ l_hist s' = ERetIns n i IClosed :: ECallIns n i :: l_hist s.
+Proof.
+  intros Hc Hr Hs. pose proof (closed_forever _ _ Hr Hc) as Hc'.
+  destruct (insert_after_close_refused _ _ _ _ Hc' Hs) as (? & ? & ?). auto.
+Qed.
+
+(** No lost wake-up.  A consumer at the select with an item pending has its
+    token case enabled, unless a producer stands between its insert and its
+    token send -- and that producer's next step is enabled and puts the token. *)
+Theorem no_lost_wakeup s :
+  lreach s -> l_cp s = CWait -> q_queue (l_q s) <> [] ->
+  enabled lstep s (LSel STok) \/
+  exists n i s', l_pp s n = PInserted i true /\ lstep s (LP n) = Some s' /\
+                 l_cp s' = CWait /\ enabled lstep s' (LSel STok).
+Proof.
+  intros Hr Hw Hq. destruct (linv_reachable s Hr) as [_ _ Hwake _ _ _].
+  destruct (Hwake Hw Hq) as [Ht|(n & i & Hp)].
+  - left. unfold enabled. cbn. rewrite Hw, Ht. discriminate.
+  - right. exists n, i. eexists. split; [exact Hp|]. cbn. rewrite Hp. split; [reflexivity|].
+    cbn. split; [exact Hw|]. unfold enabled. cbn. rewrite Hw. discriminate.
+Qed.
+
+(** A consumer that cannot move is entitled to wait: the queue is open, its
+    context is live, and either nothing is pending or the producer that made
+    the queue non-empty has not sent its token yet. *)
+Theorem blocked_justified s :
+  lreach s -> l_cp s = CWait ->
+  (forall b, lstep s (LSel b) = None) ->
+  q_closed (l_q s) = false /\ l_cancelled s = false /\
+  (q_queue (l_q s) = [] \/ exists n i, l_pp s n = PInserted i true).
+Proof.
+  intros Hr Hw Hb. destruct (linv_reachable s Hr) as [_ _ Hwake _ _ _].
+  pose proof (Hb SCtx) as H1. pose proof (Hb STok) as H2. pose proof (Hb SClosed) as H3.
+  cbn in H1, H2, H3. rewrite Hw in *.
+  destruct (l_cancelled s); [discriminate|].
+  destruct (q_token (l_q s)) eqn:Et; [discriminate|].
+  destruct (q_closed (l_q s)); [discriminate|].
+  repeat split; auto.
+  destruct (q_queue (l_q s)) eqn:Eq; [left; reflexivity|right].
+  destruct (Hwake eq_refl) as [H|H]; [congruence|discriminate|exact H].
+Qed.
+
+(** Close and cancellation wake the waiting consumer: the matching case of the
+    select is enabled, and stays enabled until the consumer takes a step. *)
+Theorem close_wakes s :
+  l_cp s = CWait -> q_closed (l_q s) = true ->
+  exists s', lstep s (LSel SClosed) = Some s' /\ l_cp s' = CLen.
+Proof. intros Hw Hc. cbn. rewrite Hw, Hc. eexists; split; reflexivity. Qed.
+
+Theorem cancel_wakes s :
+  l_cp s = CWait -> l_cancelled s = true ->
+  exists s', lstep s (LSel SCtx) = Some s' /\ l_cp s' = CIdle /\
+             l_hist s' = ERetNext NCtx :: l_hist s.
+Proof. intros Hw Hc. cbn. rewrite Hw, Hc. eexists; repeat split; reflexivity. Qed.
+
+(** Only the consumer's own steps change its program counter. *)
+Lemma cp_other_step s l s' :
+  lstep s l = Some s' -> l <> LC -> (forall b, l <> LSel b) -> l_cp s' = l_cp s.
+Proof.
+  destruct l as [n i|n| |b| |]; cbn; intros Hs H1 H2; try congruence.
+  - destruct (l_pp s n); try discriminate. destruct (q_closed (l_q s)); inversion Hs; subst; auto.
+  - destruct (l_pp s n) as [|i|i ok]; try discriminate.
+    + destruct (locked_insert (l_q s) i); inversion Hs; subst; auto.
+    + inversion Hs; subst; auto.
+  - inversion Hs; subst; auto.
+  - inversion Hs; subst; auto.
+Qed.
+
+(** Drain before closed.  The consumer is told "closed" only by the step that
+    found the queue empty after Close; at that moment everything any locked
+    insert ever put in -- in particular every insertion that returned before
+    Close -- has been delivered, duplicates included. *)
+Theorem drain_before_closed s l s' pre :
+  lreach s -> lstep s l = Some s' -> l_hist s' = ERetNext NClosed :: pre ->
+  List.length (l_hist s') = S (List.length (l_hist s)) ->
+  l = LC /\ l_cp s = CLen /\ In EClose (l_hist s) /\
+  q_queue (l_q s') = [] /\
+  (forall i, npend i (lin (l_hist s')) = 0) /\
+  weight (delivered (lin (l_hist s'))) = count_ins (lin (l_hist s')).
+Proof.
+  intros Hr Hs Hh Hlen.
+  assert (Hr' : lreach s') by (eapply reachable_step; eauto).
+  assert (Hl : l = LC /\ l_cp s = CLen /\ q_queue (l_q s') = []).
+  { destruct l as [n i|n| |b| |]; cbn in Hs.
+    - destruct (l_pp s n); try discriminate.
+      destruct (q_closed (l_q s)); inversion Hs; subst; cbn in *; solve [discriminate|lia].
+    - destruct (l_pp s n) as [|i|i ok]; try discriminate.
+      + destruct (locked_insert (l_q s) i); inversion Hs; subst; discriminate.
+      + inversion Hs; subst; discriminate.
+    - unfold cons_next in Hs. destruct (l_cp s) eqn:Ec; try discriminate.
+      + destruct (locked_next (l_q s)) as [[[? ?] ?]|]; inversion Hs; subst; cbn in *; solve [discriminate|lia].
+      + destruct (locked_next (l_q s)) as [[[? ?] ?]|]; inversion Hs; subst; cbn in *; solve [discriminate|lia].
+      + destruct (Nat.eqb (q_len (l_q s)) 0) eqn:El; inversion Hs; subst; cbn in *; [|lia].
+        repeat split. unfold q_len in El. destruct (q_queue (l_q s)); [reflexivity|discriminate].
+    - destruct (l_cp s); try discriminate. destruct b.
+      + destruct (l_cancelled s); inversion Hs; subst; discriminate.
+      + destruct (q_token (l_q s)); inversion Hs; subst; cbn in *; solve [discriminate|lia].
+      + destruct (q_closed (l_q s)); inversion Hs; subst; cbn in *; solve [discriminate|lia].
+    - inversion Hs; subst; discriminate.
+    - inversion Hs; subst; discriminate. }
+  destruct Hl as (-> & Hcp & Hq). 
+  destruct (linv_reachable s Hr) as [_ _ _ Hlen' Hcl _].
+  repeat split; auto.
+  - apply Hcl, Hlen', Hcp.
+  - intros i. apply (proj2 (dup_exact s' Hr')). rewrite Hq. intros [].
+  - pose proof (conservation s' Hr') as Hc. unfold q_abs in Hc. rewrite Hq in Hc. cbn in Hc. lia.
+Qed.
+
+(** Insert reports "new" exactly when the item is not pending, and the
+    abstract state moves by the abstract insertion. *)
+Theorem insert_reports_new s n i :
+  lreach s -> l_pp s n = PChecked i ->
+  exists s', lstep s (LP n) = Some s' /\
+             l_pp s' n = PInserted i (negb (aq_mem i (q_abs (l_q s)))) /\
+             q_abs (l_q s') = fst (aq_insert i (q_abs (l_q s))) /\
+             l_hist s' = EIns n i (negb (aq_mem i (q_abs (l_q s)))) :: l_hist s.
+Proof.
+  intros Hr Hp. destruct (linv_reachable s Hr) as [Hwf _ _ _ _ _].
+  pose proof (locked_insert_spec (l_q s) i Hwf) as Hli. cbn zeta in Hli.
+  cbn. rewrite Hp. destruct (locked_insert (l_q s) i) as [q' ok] eqn:El. cbn in Hli.
+  destruct Hli as (Hwf' & Hc' & Hok & _).
+  eexists. split; [reflexivity|]. cbn. rewrite set_pp_same.
+  rewrite (q_abs_counts _ Hwf), (q_abs_counts _ Hwf'), Hc'.
+  assert (ok = negb (aq_mem i (q_counts (l_q s)))) as ->.
+  { rewrite Hok. unfold aq_insert. destruct (aq_mem i (q_counts (l_q s))); reflexivity. }
+  auto.
+Qed.
+
+(** * Examples: the hypotheses above are satisfiable, on non-trivial states *)
+
+Definition sch_dup : list label :=
+  [LCall 0 5; LP 0; LP 0; LCall 1 5; LP 1; LP 1; LCall 0 6; LP 0; LP 0; LC].
+
+Example ex_reach_dup :
+  exists s, lreach s /\ q_queue (l_q s) = [6] /\
+            lin (l_hist s) = [LPop 5 1; LIns 6 true; LIns 5 false; LIns 5 true] /\
+            weight (delivered (lin (l_hist s))) = 2 /\ count_ins (lin (l_hist s)) = 3 /\
+            l_cp s = CIdle.
+Proof.
+  eexists. split; [exists sch_dup; reflexivity|]. cbn. repeat split; reflexivity.
+Qed.
+
+(** consumer at the select, item pending, producer 0 between insert and token *)
+Example ex_window :
+  exists s, lreach s /\ l_cp s = CWait /\ q_queue (l_q s) = [5] /\
+            l_pp s 0%nat = PInserted 5 true /\ q_token (l_q s) = false.
+Proof.
+  eexists. split; [exists [LC; LCall 0 5; LP 0]; reflexivity|]. cbn. repeat split; reflexivity.
+Qed.
+
+(** consumer legitimately parked *)
+Example ex_blocked :
+  exists s, lreach s /\ l_cp s = CWait /\ (forall b, lstep s (LSel b) = None).
+Proof.
+  eexists. split; [exists [LC]; reflexivity|]. cbn. split; [reflexivity|]. intros []; reflexivity.
+Qed.
+
+(** the consumer is told "closed" after the item inserted before Close was delivered *)
+Example ex_drain :
+  exists s s', lreach s /\ lstep s LC = Some s' /\
+               l_hist s' = ERetNext NClosed :: l_hist s /\
+               delivered (lin (l_hist s')) = [(5, 0)].
+Proof.
+  eexists. eexists. split; [exists [LCall 0 5; LP 0; LP 0; LClose; LC; LC; LSel SClosed]; reflexivity|].
+  cbn. repeat split; reflexivity.
+Qed.
+
+(** cancellation reaches a waiting consumer *)
+Example ex_cancel :
+  exists s, lreach s /\ l_cp s = CWait /\ l_cancelled s = true.
+Proof.
+  eexists. split; [exists [LC; LCancel]; reflexivity|]. cbn. split; reflexivity.
+Qed.
+
+(** a refused call *)
+Example ex_refused :
+  exists s s', lreach s /\ q_closed (l_q s) = true /\ lstep s (LCall 3 9) = Some s'.
+Proof.
+  eexists. eexists. split; [exists [LClose]; reflexivity|]. cbn. split; reflexivity.
+Qed.
+
+(** An Insert that overlaps Close: producer 0 passes the closed check, Close
+    runs, the consumer finds the queue empty and is told "closed"; then the
+    producer's locked insert succeeds and Insert returns (true, nil).  The item
+    stays in the queue.  This is outside the property as worded (it covers
+    insertions that completed before the close); documented, not a finding. *)
+Definition sch_overlap : list label :=
+  [LCall 0 7; LC; LClose; LSel SClosed; LC; LP 0; LP 0].
+
+Theorem insert_close_overlap_example :
+  exists s, run lstep l_init sch_overlap = Some s /\
+            l_hist s = [ERetIns 0 7 (IOk true); EIns 0 7 true; ERetNext NClosed; EClose;
+                        ECallNext; ECallIns 0 7] /\
+            q_queue (l_q s) = [7] /\ l_cp s = CIdle.
+Proof. eexists. split; [reflexivity|]. cbn. repeat split; reflexivity. Qed.
+
+(** * Soundness of the executable specification K_P (mode E)
+
+    If K_P accepts an observed operation sequence then the accepted inserts
+    and the deliveries, in the order observed, are a run of the abstract
+    coalescing queue -- hence (by [aq_replay_hist_ok]) the deliveries are in
+    order of first undelivered insertion with exact duplicate counts -- and
+    "closed" was only ever reported with nothing pending. *)
+From Gnmi Require Import Coalesce.QueueCheck.
+
+Fixpoint k_run (k : kst) (l : list (op * obs)) : option kst :=
+  match l with
+  | [] => Some k
+  | (o, r) :: l' => match kstep k o r with
+                    | inl k' => k_run k' l'
+                    | inr _ => None
+                    end
+  end.
+
+(** the linearisation the observations themselves define (newest first) *)
+Fixpoint obs_lin (l : list (op * obs)) (acc : list lev) : list lev :=
+  match l with
+  | [] => acc
+  | (OInsert i, RIns (IOk new)) :: l' => obs_lin l' (LIns i new :: acc)
+  | (ONext _, RNext (NItem i d)) :: l' => obs_lin l' (LPop i d :: acc)
+  | _ :: l' => obs_lin l' acc
+  end.
+
+Lemma kstep_sound k o r k' acc :
+  aq_replay acc = Some (k_aq k) -> kstep k o r = inl k' ->
+  aq_replay (obs_lin [(o, r)] acc) = Some (k_aq k') /\
+  (r = RNext NClosed -> k_aq k = [] /\ k_closed k = true).
+Proof.
+  intros Ha Hk. destruct o as [i|c| | |]; destruct r as [res|res|n|b| |]; cbn in Hk; try discriminate.
+  - (* insert *)
+    destruct (k_closed k).
+    + destruct res as [new|]; cbn in Hk; [discriminate|]. inversion Hk; subst. cbn. split; [assumption|discriminate].
+    + destruct (aq_insert i (k_aq k)) as [q' new] eqn:E.
+      destruct res as [b|]; cbn in Hk; [|discriminate].
+      destruct (Bool.eqb b new) eqn:Eb; [|discriminate]. inversion Hk; subst; cbn.
+      apply Bool.eqb_prop in Eb. subst b. rewrite Ha, E; cbn. rewrite Bool.eqb_reflx. split; [reflexivity|discriminate].
+  - (* next *)
+    destruct (k_aq k) as [|[i d] q'] eqn:Eq; cbn in Hk.
+    + destruct res; try discriminate.
+      * destruct (k_closed k); [|discriminate].
+        destruct (N.eqb (k_acc k) (k_del k)); [|discriminate]. inversion Hk; subst. cbn.
+        rewrite Eq in *. split; [assumption|auto].
+      * destruct (ctx_fires c); [|discriminate]. inversion Hk; subst. cbn. rewrite Eq in *. split; [assumption|discriminate].
+      * destruct (k_closed k); [discriminate|]. destruct (ctx_fires c); [discriminate|].
+        inversion Hk; subst. cbn. rewrite Eq in *. split; [assumption|discriminate].
+    + destruct res as [j e| | |]; try discriminate.
+      * destruct (N.eqb_spec i j) as [<-|]; cbn in Hk; [|discriminate].
+        destruct (N.eqb_spec d e) as [<-|]; cbn in Hk; [|discriminate].
+        inversion Hk; subst; cbn. rewrite Ha, !N.eqb_refl. cbn. split; [reflexivity|discriminate].
+      * destruct (ctx_fires c); [|discriminate]. inversion Hk; subst. cbn. rewrite Eq in *. split; [assumption|discriminate].
+  - inversion Hk; subst. cbn. split; [assumption|discriminate].
+  - destruct (Nat.eqb n (List.length (k_aq k))); [|discriminate]. inversion Hk; subst. cbn. split; [assumption|discriminate].
+  - destruct (Bool.eqb b (k_closed k)); [|discriminate]. inversion Hk; subst. cbn. split; [assumption|discriminate].
+Qed.
+
+Lemma obs_lin_cons o r l acc : obs_lin ((o, r) :: l) acc = obs_lin l (obs_lin [(o, r)] acc).
+Proof.
+  destruct o; destruct r as [res|res| | | |]; try reflexivity; destruct res; reflexivity.
+Qed.
+
+Theorem K_seq_sound l : forall k k' acc,
+  aq_replay acc = Some (k_aq k) -> k_run k l = Some k' ->
+  aq_replay (obs_lin l acc) = Some (k_aq k') /\ hist_ok (obs_lin l acc) (k_aq k').
+Proof.
+  induction l as [|[o r] l IH]; intros k k' acc Ha Hk.
+  - cbn in *. inversion Hk; subst. split; [assumption|]. apply aq_replay_hist_ok; assumption.
+  - cbn [k_run] in Hk. destruct (kstep k o r) as [k1|] eqn:E; [|discriminate].
+    destruct (kstep_sound _ _ _ _ _ Ha E) as [Ha1 _].
+    rewrite obs_lin_cons. eapply IH; eauto.
+Qed.
+
+(** the checker's verdict list is empty only if [k_run] accepts *)
+Lemma check_seq_K l : forall i ss k,
+  check_seq i ss (Some k) l = [] -> exists k', k_run k l = Some k'.
+Proof.
+  induction l as [|[o r] l IH]; intros i ss k H; cbn in *.
+  - eauto.
+  - destruct (match ss with
+              | Some l0 => match msteps l0 o r with [] => ([(i, 1)], None) | q :: l1 => ([], Some (q :: l1)) end
+              | None => ([], None) end) as [v1 ss'].
+    destruct (kstep k o r) as [k1|t].
+    + apply app_eq_nil in H. destruct H as [_ H]. cbn in H. eapply IH; eauto.
+    + apply app_eq_nil in H. destruct H as [_ H]. cbn in H. discriminate.
+Qed.
+
+Corollary K_seq_check_sound l :
+  check_case (CSeq l) = [] ->
+  exists q, aq_replay (obs_lin l []) = Some q /\ hist_ok (obs_lin l []) q.
+Proof.
+  intros H. destruct (check_seq_K _ _ _ _ H) as [k' Hk].
+  exists (k_aq k'). eapply (K_seq_sound l k_init k' []); [reflexivity|exact Hk].
 Qed.
